@@ -643,7 +643,7 @@ void DOMLSSerializerImpl::processNode(const DOMNode* const nodeToWrite, int leve
             if (checkFilter(nodeToWrite) != DOMNodeFilter::FILTER_ACCEPT)
                 break;
 
-            ensureValidString(nodeToWrite, nodeValue);
+            ensureValidString(nodeToWrite, nodeValue, true);
             if (getFeature(FORMAT_PRETTY_PRINT_ID))
             {
                 fLineFeedInTextNodePrinted = false;
@@ -935,7 +935,7 @@ void DOMLSSerializerImpl::processNode(const DOMNode* const nodeToWrite, int leve
                             {
                                 if(child->getNodeType()==DOMNode::TEXT_NODE)
                                 {
-                                    ensureValidString(attribute, child->getNodeValue());
+                                    ensureValidString(attribute, child->getNodeValue(), true);
                                     *fFormatter  << child->getNodeValue();
                                 }
                                 else if(child->getNodeType()==DOMNode::ENTITY_REFERENCE_NODE)
@@ -947,7 +947,7 @@ void DOMLSSerializerImpl::processNode(const DOMNode* const nodeToWrite, int leve
                         }
                         else
                         {
-                            ensureValidString(attribute, attribute->getNodeValue());
+                            ensureValidString(attribute, attribute->getNodeValue(), true);
                             *fFormatter  << attribute->getNodeValue();
                         }
                         *fFormatter  << XMLFormatter::NoEscapes
@@ -1055,7 +1055,7 @@ void DOMLSSerializerImpl::processNode(const DOMNode* const nodeToWrite, int leve
                 {
                     if(child->getNodeType()==DOMNode::TEXT_NODE)
                     {
-                        ensureValidString(nodeToWrite, child->getNodeValue());
+                        ensureValidString(nodeToWrite, child->getNodeValue(), true);
                         *fFormatter  << child->getNodeValue();
                     }
                     else if(child->getNodeType()==DOMNode::ENTITY_REFERENCE_NODE)
@@ -1067,7 +1067,7 @@ void DOMLSSerializerImpl::processNode(const DOMNode* const nodeToWrite, int leve
             }
             else
             {
-                ensureValidString(nodeToWrite, nodeValue);
+                ensureValidString(nodeToWrite, nodeValue, true);
                 *fFormatter  << nodeValue;
             }
             *fFormatter  << XMLFormatter::NoEscapes
@@ -1732,7 +1732,7 @@ bool DOMLSSerializerImpl::isNamespaceBindingActive(const XMLCh* prefix, const XM
     return false;
 }
 
-void DOMLSSerializerImpl::ensureValidString(const DOMNode* nodeToWrite, const XMLCh* string)
+void DOMLSSerializerImpl::ensureValidString(const DOMNode* nodeToWrite, const XMLCh* string, bool refsAllowed)
 {
     // XERCESC-1854: prevent illegal characters from being written
     // XERCESC-2130: allow surrogates
@@ -1743,7 +1743,12 @@ void DOMLSSerializerImpl::ensureValidString(const DOMNode* nodeToWrite, const XM
     {
         if((fIsXml11 && !XMLChar1_1::isXMLChar(*cursor)) || (!fIsXml11 && !XMLChar1_0::isXMLChar(*cursor)))
         {
-            if((*cursor >= 0xD800) && (*cursor <= 0xDBFF))
+            if(fIsXml11 && refsAllowed && XMLChar1_1::isControlChar(*cursor))
+            {
+                // an XML 1.1 RestrictedChar: legal as a character reference,
+                // which is how XMLFormatter writes it in text and attribute values
+            }
+            else if((*cursor >= 0xD800) && (*cursor <= 0xDBFF))
             {
                 XMLCh leadingSurrogate = *cursor;
                 cursor++;
